@@ -1,5 +1,6 @@
 """C17 - the bridge listens exactly while running and leaves nothing behind."""
 import asyncio
+import os
 import socket
 
 from hypothesis import strategies as st
@@ -141,6 +142,8 @@ class BridgeSys:
             before = self.rig.invocations
             for i in range(step.get("n", 3)):
                 self.rig.tx.sendto(self.datagram(), ("127.0.0.1", self.ports[(step["port"] + i) % self.nports]))
+            for _ in range(step.get("cycles", 0)):      # 0..4 loop turns between the sends and stop(): some datagrams are
+                await asyncio.sleep(0)                  # then delivered before stop - fine - but none after it returned
             try:
                 await self.bridge.stop()
             except Exception as exc:
@@ -152,6 +155,45 @@ class BridgeSys:
                 await asyncio.sleep(0)
             if self.rig.invocations != after_stop:
                 self.fail("callback-after-stop-returned", 0, self.rig.invocations - after_stop)
+        elif a == "start_fd_exhausted":
+            # start() failing on a later port for another reason than "address in use": the process runs out of file
+            # descriptors after `allow` sockets.  Whatever the errno, the error must surface and nothing may stay bound.
+            import resource
+            allow = step["allow"] % self.nports
+            soft, hard = resource.getrlimit(resource.RLIMIT_NOFILE)
+            nfds = len(os.listdir("/proc/self/fd")) - 1
+            fillers = []
+            try:
+                resource.setrlimit(resource.RLIMIT_NOFILE, (nfds + allow + 8, hard))
+                while True:                     # use up the slack so that exactly `allow` descriptors remain
+                    try:
+                        fillers.append(os.open("/dev/null", os.O_RDONLY))
+                    except OSError:
+                        break
+                for _ in range(allow):
+                    if fillers:
+                        os.close(fillers.pop())
+                try:
+                    await self.bridge.start()
+                    outcome = "started"
+                except OSError as exc:
+                    outcome = "OSError"
+                except Exception as exc:  # noqa
+                    outcome = f"{type(exc).__name__}: {exc}"
+            finally:
+                for fd in fillers:
+                    os.close(fd)
+                resource.setrlimit(resource.RLIMIT_NOFILE, (soft, hard))
+            self.failed_start = True
+            if outcome == "started":
+                # the loop needed fewer descriptors than assumed: a successful start is fine, the model follows
+                self.running = not self.occupied
+                if self.occupied:
+                    self.fail("start-with-port-in-use/fd-limit", "OSError", outcome)
+            elif outcome != "OSError":
+                self.fail("start-failure-not-OSError/fd-limit", "OSError", outcome)
+            else:
+                self.running = False
         elif a == "rival_start":
             # another SwitcherBridge object configured with the same ports: while this one runs its start must fail with
             # OSError and must not disturb this bridge (the invariants below re-check is_running, the ports and delivery)
@@ -253,7 +295,7 @@ class BridgeSys:
 
 def nontrivial(steps):
     acts = [s["action"] for s in steps]
-    starts = [i for i, a in enumerate(acts) if a in ("start", "enter")]
+    starts = [i for i, a in enumerate(acts) if a in ("start", "enter", "start_fd_exhausted")]
     restart = len(starts) >= 2
     failed_late = False
     occ = set()
@@ -318,9 +360,14 @@ def machine_factory(nports):
                 self.do({"action": "send", "port": port})
 
             @precondition(lambda self: self.sys.running)
-            @rule(port=st.integers(0, nports - 1), n=st.integers(1, 4))
-            def send_then_stop(self, port, n):
-                self.do({"action": "send_then_stop", "port": port, "n": n})
+            @rule(port=st.integers(0, nports - 1), n=st.integers(1, 4), cycles=st.integers(0, 4))
+            def send_then_stop(self, port, n, cycles):
+                self.do({"action": "send_then_stop", "port": port, "n": n, "cycles": cycles})
+
+            @precondition(lambda self: not self.sys.running and nports > 1)
+            @rule(allow=st.integers(1, max(1, nports - 1)))
+            def start_fd_exhausted(self, allow):
+                self.do({"action": "start_fd_exhausted", "allow": allow})
 
             @precondition(lambda self: not self.sys.running)
             @rule(port=st.integers(0, nports - 1))
